@@ -487,7 +487,7 @@ def run(prop, tier, seed, a, scratch, t_start):
     G['items'] = items
     log('[%s] %d work items, tier %s' % (prop, len(items), tier))
     results = []
-    budget = spec.get('budget', {}).get(tier, 3000)
+    budget = spec.get('budget', {}).get(tier, 2400 if tier == 'quick' else 6 * 3600)
     t0 = time.time()
     with mp.get_context('fork').Pool(min(a.jobs, max(1, len(items)))) as pool:
         for k, r in enumerate(pool.imap_unordered(run_item_idx, range(len(items)), chunksize=1)):
